@@ -266,8 +266,8 @@ def shrink_failure(mod, tier, seed, nshards, rec, sig, budget_s):
     `sig`, so that Hypothesis's shrinker minimises it.  Returns the smallest failing case seen."""
     phases = mod.phases(tier)
     names = [p.name for p in phases]
-    if rec["phase"] not in names:
-        return codec.dec(rec["case"]), rec["detail"]
+    if rec["phase"] not in names or sig.endswith("|python-O"):
+        return codec.dec(rec["case"]), rec["detail"]      # found under python -O: not re-searched in this interpreter
     pi = names.index(rec["phase"])
     ph = phases[pi]
     best = dict(case=codec.dec(rec["case"]), detail=rec["detail"], size=rec["size"])
@@ -305,6 +305,54 @@ def shrink_failure(mod, tier, seed, nshards, rec, sig, budget_s):
     return best["case"], best["detail"]
 
 
+def opt_stage(prop_id, tier, seed):
+    """Re-run one thin shard of the search in a child interpreter started with -O (asserts and `if __debug__:`
+    blocks compiled away, as under PYTHONOPTIMIZE=1): the properties do not depend on interpreter flags."""
+    import pickle
+    import subprocess
+    import tempfile
+    fd, path = tempfile.mkstemp(prefix="optstage_", suffix=".pkl")
+    os.close(fd)
+    nsh = 8 if tier == "quick" else 32
+    code = ("import sys, pickle; from harness.runner import run_shard; "
+            f"r = run_shard(({prop_id!r}, {tier!r}, {int(seed) + 7919}, 0, {nsh})); "
+            f"pickle.dump(r, open({path!r}, 'wb'))")
+    env = dict(os.environ, PYTHONOPTIMIZE="1", VERIF_OPT_STAGE="1")
+    proc = subprocess.Popen([sys.executable, "-O", "-B", "-c", code], env=env, cwd=VERIF, stdout=subprocess.DEVNULL,
+                            stderr=subprocess.DEVNULL)
+    return proc, path, (1800 if tier == "quick" else 7200)
+
+
+def opt_stage_finish(handle):
+    import pickle
+    proc, path, timeout = handle
+    try:
+        proc.wait(timeout=timeout)
+        with open(path, "rb") as f:
+            res = pickle.load(f)
+    except Exception as e:
+        try:
+            proc.kill()
+        except Exception:
+            pass
+        return None, f"optimised-interpreter stage did not complete: {type(e).__name__}: {e}"
+    finally:
+        try:
+            os.remove(path)
+        except OSError:
+            pass
+    if res[0] != "ok":
+        return None, "optimised-interpreter stage failed: " + str(res[1])[-400:]
+    part = res[1]
+    for k in ("phase_counts",):
+        part[k] = {name + " [python -O]": c for name, c in part[k].items()}
+    for rec in part["fails"].values():
+        rec["phase"] = rec["phase"]            # same phase names: the shrink pass re-runs them in this interpreter
+        rec["detail"] = "[under python -O] " + rec["detail"]
+    part["fails"] = {sig + "|python-O": rec for sig, rec in part["fails"].items()}
+    return part, None
+
+
 def load_prop(prop_id):
     return importlib.import_module(f"props.{prop_id.lower()}")
 
@@ -317,7 +365,8 @@ def write_replay(prop_id, sig, clause, detail, case, seed, tier, phase):
     path = os.path.join(d, f"{h}.json")
     with open(path, "w") as f:
         json.dump(dict(property=prop_id, sig=sig, clause=clause, detail=detail, seed=seed, tier=tier,
-                       phase=phase, case=codec.enc(case)), f, indent=1)
+                       phase=phase, interpreter="-O" if sig.endswith("|python-O") else "", case=codec.enc(case)),
+                  f, indent=1)
     return path
 
 
@@ -333,6 +382,11 @@ def replay(prop_id, path):
     mod = load_prop(prop_id)
     with open(path) as f:
         data = json.load(f)
+    if data.get("interpreter") == "-O" and not sys.flags.optimize:
+        import subprocess
+        code = "import sys; from harness.runner import main; sys.exit(main(sys.argv[1:]))"
+        return subprocess.run([sys.executable, "-O", "-B", "-c", code, prop_id, "--replay", path], cwd=VERIF,
+                              env=dict(os.environ, PYTHONOPTIMIZE="1")).returncode
     case = codec.dec(data["case"])
     v = decide(mod, case)
     bad = [f for f in v.fails if not f.known]
@@ -379,7 +433,10 @@ def run(prop_id, tier, seed, nshards=None):
             st0.add(mod, "regression-replays", 0, case, decide(mod, case))
     extra_parts.append(st0.export())
 
-    # 2. the search
+    # 2. the search (a thin extra shard runs concurrently in a child interpreter started with -O)
+    opt_handle = None
+    if getattr(mod, "OPT_STAGE", True) and not os.environ.get("VERIF_OPT_STAGE"):
+        opt_handle = opt_stage(prop_id, tier, seed)
     jobs = [(prop_id, tier, seed, s, nshards) for s in range(nshards)]
     if nshards == 1:
         results = [run_shard(jobs[0])]
@@ -399,6 +456,11 @@ def run(prop_id, tier, seed, nshards=None):
         for case in fuzz_cases:
             st1.add(mod, "atheris-crash-recheck", 0, case, decide(mod, case))
         extra_parts.append(st1.export())
+    opt_note = None
+    if opt_handle is not None:
+        part, opt_note = opt_stage_finish(opt_handle)
+        if part is not None:
+            extra_parts.append(part)
     tot = merge(extra_parts + [r[1] for r in results])
 
     # 3. report known findings
@@ -437,7 +499,9 @@ def run(prop_id, tier, seed, nshards=None):
                                   ("hypothesis-stateful" if p.machine is not None else "hypothesis"), note=p.note)
                      for p in phases},
                     **{k: dict(cases=c, kind="replayed files") for k, c in tot["phase_counts"].items()
-                       if k in ("regression-replays", "known-finding-replay")}),
+                       if k in ("regression-replays", "known-finding-replay")},
+                    **{k: dict(cases=c, kind="same phase, child interpreter started with -O")
+                       for k, c in tot["phase_counts"].items() if k.endswith("[python -O]")}),
         exhaustive=exhaustive,
         exhaustive_phases=[p.name for p in phases if p.exhaustive],
         known_findings_matched=dict(tot["known"]),
@@ -448,6 +512,7 @@ def run(prop_id, tier, seed, nshards=None):
     )
     if fuzz_info is not None:
         coverage["fuzz"] = fuzz_info
+    coverage["optimised_interpreter_stage"] = opt_note or "one thin shard re-run under python -O (counts under phases '... [python -O]')"
     if hasattr(mod, "extra_evidence"):
         coverage.update(mod.extra_evidence(tier))
     ev = dict(property_id=prop_id, tier=tier, seed=int(seed), level=mod.LEVEL, coverage=coverage,
